@@ -6,6 +6,8 @@ from ..ref import alt as ralt
 from ..ref import bits
 
 LEVEL = "exploration"
+TECHNIQUE = 'runtime monitoring: exhaustive identity patterns and field products against forward builders, guard matrix over DF 0..31'
+LEVEL_TEXT = 'Finite field domains enumerated completely on every run; remaining bits sampled.'
 EXHAUSTIVE = True
 LEVEL_RULE = (
     "All 8192 identity patterns (A,B,C,D digits x X bit, forward interleaver) through common.squawk/idcode, surv.identity "
